@@ -142,7 +142,7 @@ void h_matid(void) {
 }
 
 // ---- O1: one make/unmake step from an arbitrary state.  verif_param: 0..2 white {piece,king,pawn}, 3..5 black.
-static void stepBody(bool checkMake, bool checkUndo, bool lite = false) {
+static void stepBody(bool checkMake, bool checkUndo, int lite = 0) {
     PositionBase pre; int cnt[13]; unsigned mid;
     symbolicState(pre, cnt, mid);
     int kind = (int)verif_param() % 3; bool wtm = verif_param() < 3;
@@ -208,6 +208,28 @@ static void stepBody(bool checkMake, bool checkUndo, bool lite = false) {
     Position& pos = rawPos(pre);
     Move m(Square(from), Square(to), prom);
     UndoInfo ui;
+    if (lite == 2) {   // static-exchange pair makeSEEMove/unMakeSEEMove, run by Search::SEE on the live position (also for quiet moves): board-only, no promotion,
+                       // no rook relocation, side flipped; the take-back must restore a bit-identical state
+        pos.makeSEEMove(m, ui);                            // real
+        const PositionBase& post = pos;
+        int win[3] = {from, to, (pawn && dx != 0 && c == 0) ? aux[0] : -1};
+        U64 wmask = 0; for (int k = 0; k < 3; k++) if (win[k] >= 0) wmask |= 1ULL << win[k];
+        bool frame = true;
+        for (int i = 0; i < 64; i++) if (!((wmask >> i) & 1)) frame = frame && post.squares[Square(i)] == pre.squares[Square(i)];
+        for (int q = 1; q < 13; q++) frame = frame && ((post.pieceTypeBB_[q] ^ pre.pieceTypeBB_[q]) & ~wmask) == 0;
+        frame = frame && ((post.whiteBB_ ^ pre.whiteBB_) & ~wmask) == 0 && ((post.blackBB_ ^ pre.blackBB_) & ~wmask) == 0;
+        CHECK(frame, "makeSEEMove: nothing outside the move's squares changes");
+        bool loc = true; for (int k = 0; k < 3; k++) if (win[k] >= 0) loc = loc && localInv(post, win[k]);
+        CHECK(loc, "makeSEEMove: board array and piece sets agree on the move's squares");
+        CHECK(post.squares[Square(from)] == 0 && post.squares[Square(to)] == p, "makeSEEMove: piece arrives (no promotion), origin empty");
+        if (win[2] >= 0) CHECK(post.squares[Square(win[2])] == 0, "makeSEEMove: pawn captured en passant removed");
+        CHECK(post.whiteMove == !pre.whiteMove && post.castleMask == pre.castleMask && post.epSquare == pre.epSquare && post.hashKey == pre.hashKey && post.pHashKey == pre.pHashKey &&
+              post.matId.hash == pre.matId.hash && post.wMtrl_ == pre.wMtrl_ && post.bMtrl_ == pre.bMtrl_ && post.halfMoveClock == pre.halfMoveClock, "makeSEEMove flips the side and leaves rights, keys and material alone");
+        CHECK(ui.capturedPiece == c, "undo record holds the captured piece");
+        pos.unMakeSEEMove(m, ui);                          // real
+        CHECK(sameState(post, pre), "unMakeSEEMove restores every field");
+        return;
+    }
     if (lite) pos.makeMoveB(m, ui); else
     pos.makeMove(m, ui);                                  // real
     const PositionBase& post = pos;
@@ -304,7 +326,8 @@ static void stepBody(bool checkMake, bool checkUndo, bool lite = false) {
 }
 void h_step(void) { stepBody(true, false); END(); }      // makeMove: frame, invariant, deltas, rules
 void h_undo(void) { stepBody(false, true); END(); }
-void h_undoB(void) { stepBody(false, false, true); END(); } // makeMoveB / unMakeMoveB (legality filter's board-only pair)      // makeMove followed by unMakeMove: bit-identical state
+void h_undoB(void) { stepBody(false, false, 1); END(); } // makeMoveB / unMakeMoveB (legality filter's board-only pair)
+void h_undoSEE(void) { stepBody(false, false, 2); END(); } // makeSEEMove / unMakeSEEMove (static exchange evaluation's pair)      // makeMove followed by unMakeMove: bit-identical state
 
 // ---- O3: single-square primitives from an arbitrary state
 void h_setpiece(void) {
